@@ -187,19 +187,19 @@ func c23Model(t c23Case, tog c23Toggles) string {
 }
 
 // c23Class names the narrow divergence families recorded as known findings.
-// sh is what mvdan/sh (the builtin or expand.ReadFields) produced.
-func c23Class(t c23Case, sh string) string {
-	for _, c := range []struct {
-		name string
-		tog  c23Toggles
-	}{
-		{"read-nonws-ifs-never-yields-empty-field", c23Toggles{noEmptyFields: true}},
-		{"read-last-variable-delimiter-trimming", c23Toggles{lastVarFieldSpan: true}},
-		{"read-no-empty-field-and-last-variable-trimming", c23Toggles{noEmptyFields: true, lastVarFieldSpan: true}},
-	} {
-		if sh == c23Model(t, c.tog) {
-			return c.name
-		}
+// sh is what mvdan/sh (the builtin or expand.ReadFields) produced, bash what
+// the oracle produced.
+//
+// Round 3, late: expand.ReadFields was rewritten after bash's algorithm (the
+// three classes of rounds 2-3 -- no empty fields, last-variable span, both --
+// are repaired and recorded as fixed), so what is left is on bash's side: when
+// the rest of the line given to the last variable consists of escaped IFS
+// whitespace only, bash 5.2 strips it but leaves its internal CTLESC byte
+// (0x01) in the value. The class holds iff the oracle's value contains 0x01
+// and equals mvdan/sh's once that byte is removed.
+func c23Class(t c23Case, sh, bash string) string {
+	if strings.Contains(bash, "\x01") && strings.ReplaceAll(bash, "\x01", "") == sh {
+		return "bash-leaks-ctlesc-in-escaped-whitespace-only-rest"
 	}
 	return ""
 }
